@@ -98,7 +98,17 @@ def run(repo, rep, tier):
     validated_entry_is_deleted_last(repo, rep)
     rollback_undoes_own_work(repo, rep)
     res = Resolver(repo)
-    ea = EscapeAnalysis(repo, res, model_none=False)
+    def warn_escapes(call, func):
+        # warnings.warn() is a raise point: pywbem's warning classes are
+        # exceptions, and a category filtered as 'error' (-W error,
+        # simplefilter('error', ...)) makes the call raise
+        if dotted(call.func) == 'warnings.warn':
+            from ..escape import Esc
+            return [Esc('Warning', 'stdlib', func.file, func.qualname,
+                        'warnings.warn(...)', call.lineno)]
+        return None
+    ea = EscapeAnalysis(repo, res, model_none=False,
+                        call_escapes=warn_escapes)
     funcs = []
     for path, cn, mn in MUTATORS:
         f = repo.cls(path, cn).methods.get(mn)
@@ -225,6 +235,8 @@ def run(repo, rep, tier):
         return False
 
     def judged(e):
+        if e.kind == 'stdlib' and e.construct == 'warnings.warn(...)':
+            return True         # raises when the category is an error
         if e.kind not in ('raise',):
             return False
         if e.file == STORE:
